@@ -195,3 +195,68 @@ Theorem program_exit_codes :
   program_run (PExit None true) = PSysExit 1 /\ program_run (PExit None false) = PSysExit 0 /\
   program_run PParseError = PSysExit 1.
 Proof. repeat split. Qed.
+
+(** * (e) where warn comes from: configuration x keyword *)
+(** the merge loop computes exactly "warn was requested" *)
+Theorem opts_warn_is_requested ws : opts_warn ws = warn_requested ws.
+Proof. destruct ws as [[[|]|] [| |[|]]]; reflexivity. Qed.
+
+(** a None keyword is an omitted keyword; an explicit value wins; without a
+    value at the call the configuration (default: off) decides *)
+Theorem warn_keyword_table cfg :
+  opts_warn (mkWs cfg KwNone) = opts_warn (mkWs cfg KwOmitted) /\
+  (forall b, opts_warn (mkWs cfg (KwVal b)) = b) /\
+  opts_warn (mkWs (Some true) KwNone) = true /\
+  opts_warn (mkWs (Some false) KwNone) = false /\
+  opts_warn (mkWs None KwNone) = false.
+Proof. repeat split. Qed.
+
+Lemma run_outcome_set_warn s : run_outcome (set_warn s (s_warn s)) = run_outcome s.
+Proof. destruct s; reflexivity. Qed.
+
+(** flagship with the warn source: whatever the situation and wherever warn
+    comes from, what the model does is what the property demands *)
+Theorem warn_source_meets_spec s ws :
+  spec_finish (set_warn s (warn_requested ws)) (run_outcome (set_warn s (opts_warn ws))) = true.
+Proof. rewrite opts_warn_is_requested. apply run_outcome_meets_spec. Qed.
+
+(** a real pty child with the warn source *)
+Theorem real_child_warn_source_meets_spec e core ws :
+  match e with Exited c => 0 <= c <= 255 | Killed s => 1 <= s <= 126 end ->
+  let raw := match e with Exited c => exit_status c | Killed s => sig_status s core end in
+  spec_finish (mkSit 0 0 false false (true_status e) (warn_requested ws) false false)
+              (finish 0 0 false false (pty_returncode raw) (opts_warn ws)) = true.
+Proof. intros H. rewrite opts_warn_is_requested. now apply real_child_meets_spec. Qed.
+
+(** the program around one command *)
+Theorem task_run_meets_spec flag cfg kw code :
+  spec_task_run flag cfg kw code (program_task_run flag cfg kw code) = true.
+Proof.
+  unfold spec_task_run, program_task_run, program_cfg_warn.
+  rewrite opts_warn_is_requested.
+  set (w := warn_requested _). unfold finish, result_of. cbn.
+  destruct (code =? 0) eqn:E; cbn; [reflexivity|].
+  destruct w; cbn; [reflexivity | apply Z.eqb_refl].
+Qed.
+
+(** -w beats a configured run.warn = False; an explicit warn=False at the call
+    beats -w; warn=None at the call leaves -w in force *)
+Theorem task_run_table code :
+  code <> 0 ->
+  (forall cfg, program_task_run true cfg KwNone code = PReturns) /\
+  (forall cfg, program_task_run true cfg KwOmitted code = PReturns) /\
+  (forall cfg, program_task_run true cfg (KwVal false) code = PSysExit code) /\
+  (forall flag cfg, program_task_run flag cfg (KwVal true) code = PReturns) /\
+  (forall kw, program_task_run false (Some true) kw code =
+              if match kw with KwVal false => true | _ => false end then PSysExit code else PReturns) /\
+  (forall cfg kw, cfg <> Some true -> kw <> KwVal true -> program_task_run false cfg kw code = PSysExit code).
+Proof.
+  intros H. apply Z.eqb_neq in H.
+  unfold program_task_run, finish, result_of; cbn. rewrite H; cbn.
+  split; [intros cfg; reflexivity|].
+  split; [intros cfg; reflexivity|].
+  split; [intros cfg; reflexivity|].
+  split; [intros [] [[|]|]; reflexivity|].
+  split; [intros [| |[|]]; reflexivity|].
+  intros [[|]|] [| |[|]] H1 H2; try reflexivity; congruence.
+Qed.
